@@ -45,6 +45,25 @@ def cases(ctx, budget):
                     text = "$[?%s(%s) %s %s]" % (fn, at, op, rhs)
                     q = gen.ast_of_query(base_env.compile(text))
                     yield harness.find_case(base_env, gen.BUILTINS, q, text, doc, "builtin-grid", rx)
+    # systematic: echo doubles of each parameter/result type on every kind of argument expression and child
+    greg = list(gen.BUILTINS) + [("el", [2], 2, [6], None), ("ev", [1], 1, [6], None), ("en", [3], 3, [6], None),
+                                 ("el2", [2, 1], 2, [6], None), ("ev2", [1, 3], 1, [6], None)]
+    genv = harness.make_env(greg, record_rx=rx)
+    gtexts = []
+    for at in ["@", "@.a", "@[0]", "@.*", "@..*", "$[0]", "$[3]", "$[4]", "$[5]", "$[6]", "$[7]", "$[8]", "$[11]", "$[14]", "$[99]",
+               "@ == 0", "@ == null", "!@.a", "@.a && @", "el(@)", "count(@.*) == 0", "en(@.*)", "ev(@) == 0"]:
+        gtexts += ["$[?el(%s)]" % at, "$[?!el(%s)]" % at, "$[?el2(%s, 1)]" % at, "$[?el(%s) && @]" % at, "$[?el(el(%s))]" % at]
+    for at in ["@", "@.a", "@[0]", "$[0]", "$[6]", "$[7]", "$[8]", "$[11]", "$[99]", "1", "null", "'a'", "false", "length(@)", "value(@.*)", "ev(@)"]:
+        for rhs in ["0", "null", "false", "''", "@", "1", "$[99]"]:
+            gtexts += ["$[?ev(%s) == %s]" % (at, rhs), "$[?ev2(%s, @.*) != %s]" % (at, rhs)]
+    for at in ["@", "@.*", "@..*", "@.a", "$[*]", "$[99]", "en(@.*)"]:
+        gtexts += ["$[?en(%s)]" % at, "$[?!en(%s)]" % at, "$[?value(en(%s)) == 1]" % at]
+        gtexts += ["$[?count(en(%s)) == %d]" % (at, k) for k in range(4)]
+    for text in gtexts:
+        try: q = gen.ast_of_query(genv.compile(text))
+        except Exception: continue
+        yield harness.find_case(genv, greg, q, text, doc, "doubles-grid", rx,
+                                extra_desc={"registry": [(r[0], r[1], r[2], r[3][0]) for r in greg[5:]]})
     for i in range(n):
         reg = harness.rand_registry(rng)
         key = repr(reg)
